@@ -794,16 +794,21 @@ hdf_xdr_NCvdata(NC *handle, NC_var *vp, unsigned long where, nc_type type, uint3
     int16    isspecial;
     int      ret_value    = SUCCEED;
     int32    alloc_status = FAIL; /* no successful allocation yet */
+    int      no_data;             /* a read of a variable that has no data element */
 
     (void)type;
 
-    if (vp->aid == FAIL && hdf_get_vp_aid(handle, vp) == FAIL) {
+    /* reading a variable that has no data yet delivers the fill value; it must not go through hdf_get_data, which
+       allocates a data element (and adds it to the variable's Vgroup and NDG) in every file that is not read-only */
+    no_data = (vp->aid == FAIL && vp->data_ref == 0 && handle->xdrs->x_op == XDR_DECODE);
+
+    if (vp->aid == FAIL && (no_data || hdf_get_vp_aid(handle, vp) == FAIL)) {
         /*
          * Fail if there is no data *AND* we were trying to read...
          * Otherwise, we should fill with the fillvalue
          */
         if (vp->data_ref == 0) {
-            if (handle->hdf_mode == DFACC_RDONLY) {
+            if (handle->hdf_mode == DFACC_RDONLY || no_data) {
                 /* nothing can be stored through a file that is open for reading only */
                 if (handle->xdrs->x_op != XDR_DECODE) {
                     ret_value = FAIL;
